@@ -32,6 +32,8 @@ void vs_policy_replay(const char *schedule);           /* "0 1 1! 2~ ..." */
 void vs_policy_prefix(const char *schedule);           /* replay the prefix, then run non-preemptively (lowest tid first) */
 void vs_trace_enabled(int on);                         /* vs_print adds "#enabled <hex mask per step>" (systematic exploration) */
 void vs_set_spurious(int cas_permille, int cv_permille);/* probability of spurious weak-CAS failure / condvar wake-up */
+void vs_set_spurious_futex(int permille);             /* a parked futex wait may return -1/EINTR without a wake-up
+                                                          (schedule flag '~', event "futex-resume <loc> spurious"); default 0 */
 void vs_set_max_steps(long n);
 void vs_kill_after(int tid, long k);                   /* after vs_spawn: thread `tid` takes exactly k steps, then is never
                                                           scheduled again (its process died); it counts as finished */
